@@ -1401,7 +1401,7 @@ pub fn codegen(
     const MAX_ITERATIONS: usize = 50;
 
     #[cfg(not(test))]
-    const MAX_ITERATIONS: usize = usize::MAX;
+    const MAX_ITERATIONS: usize = 1000;
 
     let mut prev_undefined = HashSet::new();
     let mut prev_errors = Diagnostics::default().with_code_map(&ctx.tree.code_map);
@@ -1483,6 +1483,17 @@ pub fn codegen(
         errors = Diagnostics::default().with_code_map(&ctx.tree.code_map);
 
         ctx.next_pass();
+    }
+
+    // Some programs never settle (e.g. a branch that is only out of range when another branch is in range).
+    // Instead of assembling forever, report what went wrong in the last pass.
+    if ctx.pass_idx == MAX_ITERATIONS {
+        let mut errors = prev_errors;
+        errors.push(Diagnostic::error().with_message(format!(
+            "assembly did not settle after {} passes",
+            MAX_ITERATIONS
+        )));
+        return (Some(ctx), errors);
     }
 
     // We're done!
